@@ -17,10 +17,18 @@ void *memcpy(void *d, const void *s, size_t n) {
   if (n) __CPROVER_havoc_slice(d, n);
   return d;
 }
+/* memset: exact for small blocks (struct clearing matters to contracts), havoc above MEMSET_EXACT bytes */
+#ifndef MEMSET_EXACT
+#define MEMSET_EXACT 96
+#endif
 void *memset(void *d, int c, size_t n) {
-  (void)c;
   __CPROVER_assert(__CPROVER_w_ok(d, n), "memset destination writable for n bytes");
-  if (n) __CPROVER_havoc_slice(d, n);
+  if (n <= MEMSET_EXACT) {
+    unsigned char *dd = d;
+    for (size_t i = 0; i < MEMSET_EXACT; i++) if (i < n) dd[i] = (unsigned char)c;
+  } else {
+    __CPROVER_havoc_slice(d, n);
+  }
   return d;
 }
 int memcmp(const void *a, const void *b, size_t n) {
